@@ -178,3 +178,11 @@ def normalize_modpath_spec(modpath, hide_init, hide_main):
     if hm and path_basename(m) == '__main__.py' and fs_exists(path_join(path_dirname(m), '__init__.py')):
         return path_dirname(m)
     return m
+
+
+@rec('(list[int]) -> int')
+def int_sum(xs):
+    """Sum of a list of integers."""
+    if len(xs) == 0:
+        return 0
+    return int_sum(xs[:len(xs) - 1]) + xs[len(xs) - 1]
